@@ -23,6 +23,23 @@ def s_check(plan, level="model_checking", dq=150, dt=900, opts=None, rule=RULE_S
     return {"runs": runs, "level": level, "deadline": {"quick": dq, "thorough": dt}, "rule": rule, "assumptions": assumptions}
 
 
+F = ["harness/engine_f.c"] + COMMON
+ASSUME_F = [
+    "mutations limited to the mutation alphabet of DESIGN.md 3.F (all 640 single-bit flips x 5 sealings, byte sets, version/magic rewrites, byte-order twins; 2-bit flips in thorough)",
+    "base fragments taken from a covering list of configurations (RS (1,1) (4,2) (10,4) (16,16); XOR (3,3,3) (10,5,3) (12,6,4); ISA-L vand/cauchy (4,2) via the reference plug-in; null (2,1))",
+    "headers that are accepted while claiming a different payload/original length (forged but sealed) are shown to the header predicate only; no listed property defines the other consumers' behaviour on them",
+    "liberasurecode_get_version() is trusted as the running library's version",
+]
+RULE_F = ("deterministic enumeration of (base fragment, mutation) pairs; each mutant is placed on a read-only page ending at a guard page and shown to the real "
+          "consumers (header predicate, metadata query, validation, decode, reconstruct, stripe verification); verdicts are compared with reference predicates "
+          "evaluated on the raw bytes; non-trivial = the mutant differs from its base (or the case damages / relabels at least one fragment)")
+
+
+def f_check(plan, dq=150, dt=900):
+    return {"runs": [{"name": plan, "plan": plan, "srcs": F, "san": "asan"}], "level": "model_checking",
+            "deadline": {"quick": dq, "thorough": dt}, "rule": RULE_F, "assumptions": ASSUME_F}
+
+
 CHECKS = {
     "C01": s_check("c01", opts={"quick": {"isa_n": 12}}),
     "C02": s_check("c02"),
@@ -32,6 +49,11 @@ CHECKS = {
     "C06": s_check("c06"),
     "C07": s_check("c07"),
     "C08": s_check("c08"),
+    "C09": f_check("c09"),
+    "C10": f_check("c10"),
+    "C11": f_check("c11"),
+    "C12": f_check("c12"),
+    "C20": f_check("c20"),
     "C19": {"runs": [
         {"name": "c19rt", "plan": "c19rt", "srcs": S, "san": "asan", "opts": {"quick": {"ex_n": 10, "st_lens": 2}}},
         {"name": "c19rc", "plan": "c19rc", "srcs": S, "san": "asan", "opts": {"quick": {"ex_n": 8, "st_lens": 1, "ex_lens": 2, "max_n": 16}}},
